@@ -45,7 +45,8 @@ def c01_forms(extended):
             # unary
             for u in ["-a", "~a", "+a", "*a", "&a", "++a", "a++", "--a", "a--"]:
                 add("n", "unary %s on %s" % (u, what), "%s sink(e, %s);" % (d, u))
-            add(ztag if w == "T" else "n", "unary !a on %s" % what, "%s sink(e, !a);" % d)
+            # !a on a sandbox-resident bool or pointer is the comparison a == false / a == nullptr: hint only (tag v)
+            add(ztag if w == "T" else ("v" if w == "V" else "n"), "unary !a on %s" % what, "%s sink(e, !a);" % d)
             # binary, comparison, logical
             for op in BINOPS + CMPOPS + LOGOPS:
                 vtag = "v" if (w == "V" and op in CMPOPS) else "n"
@@ -269,6 +270,15 @@ def c02_forms(extended):
     add("n", "compound tainted<int> + tainted<int,other>", "sink(e, e.T_<int>() + e.NT<int>());")
     add("n", "compound tainted<pint> + tainted<int,other>", "sink(e, e.T_<pint>() + e.NT<int>());")
     add("n", "index tainted<pint>[tainted<int,other>]", "auto p = Wd::tptr<int>(e.sb, 512); sink(e, p[e.NT<int>()]);")
+    # round 9: a number of another sandbox type selects / becomes data of this sandbox without any unwrapping call
+    add("f", "store through p[tainted<int,other>] (foreign value selects the cell)", "auto p = Wd::tptr<int>(e.sb, 512); p[e.NT<int>()] = 1; sink(e, p);")
+    add("f", "store through arr[tainted<int,other>] (tainted array)", "tainted<int[4], S> a; a[e.NT<int>()] = 1; sink(e, a[0]);")
+    add("f", "store volatile<bool> = (tainted<unsigned> == tainted<unsigned,other>)", "e.V<bool>() = (e.T_<unsigned int>() == e.NT<unsigned int>()); sink(e, e.V<bool>());")
+    add("f", "store volatile<bool> = (tainted<int> < tainted<int,other>)", "e.V<bool>() = (e.T_<int>() < e.NT<int>()); sink(e, e.V<bool>());")
+    add("f", "compare tainted<pint> == tainted<pint,other>", FP + " auto p = Wd::tptr<int>(e.sb, 512); e.V<bool>() = (p != fp); sink(e, e.V<bool>());")
+    # a class object that converts to a raw pointer as the right operand of tainted number + x: the sum is a raw pointer
+    add("f", "tainted<long> + std::reference_wrapper<int*> (sum is an application pointer)", "int* rp = e.raw(); std::reference_wrapper<int*> ref(rp); auto t = e.T_<long>() + ref; sink(e, t);")
+    add("f", "tainted<int> + handle class convertible to int* (sum is an application pointer)", "struct Hd { int* p; operator int*() const { return p; } }; Hd h{ e.raw() }; auto t = e.T_<int>() + h; sink(e, t);")
     # pointers held by a wrapper of ANOTHER sandbox type (here: a noop sandbox, whose pointers are application addresses)
     add("r", "store volatile<pint> = tainted<pint,other>", FP + " e.V<pint>() = fp; sink(e, e.V<pint>());")
     add("r", "init tainted<pint,S> = tainted<pint,other>", FP + " tainted<pint, S> t = fp; sink(e, t);")
